@@ -4,6 +4,11 @@
 //   newton.sys    <tol|-> <delta|-> <iters|-> <guess-vec> <{fn,..}>     elt f64 | cplx
 //   newton.sysjac <tol|-> <delta|-> <iters|-> <guess-vec> <{fn,..}> <r> <c> <{jac entry,.. row-major}>
 //   newton.jac    <point-vec> <delta> <{fn,..}>                         elt f64 | cplx
+//   newton.hscalar <guess0> <nops> {<op> <value>}* <fn>                 setter histories (specB): the object is built by
+//   newton.hsys    <guess0-vec> <nops> {<op> <value>}* <{fn,..}>        Newton::new(guess0) and then configured by the ops IN THE
+//   newton.hsysjac <guess0-vec> <nops> {<op> <value>}* <{fn,..}> <r> <c> <{jac,..}>   GIVEN ORDER: t <tol>, d <delta>, i <iters>,
+//                  g <guess> (Newton::guess), s - (a solve whose result is discarded).  The answer has exactly the format of
+//                  newton.scalar / newton.sys / newton.sysjac, so the model term is the run on the EFFECTIVE configuration.
 //
 // `-` keeps the default of Newton::new.  <fn> is a shared AST (fnast.rs; the model gets the same
 // expression as a Gallina term) or, for search-only cases on f64, a builtin `@name:param:..`.
@@ -144,6 +149,35 @@ fn configure<X>(n: &mut Newton<X>, t: Option<f64>, d: Option<f64>, it: Option<us
     if let Some(d) = d { n.delta(d); }
     if let Some(it) = it { n.iterations(it); }
 }
+// a setter history: ops applied in the given order; `solve` runs a discarded solve for the op `s`
+enum HOp<G> { Tol(f64), Delta(f64), Iters(usize), Guess(G), Solve }
+fn parse_ops<G>(a: &mut Args, mut guess: impl FnMut(&mut Args) -> G) -> Vec<HOp<G>> {
+    let n = a.usize();
+    let mut ops = Vec::new();
+    for _ in 0..n {
+        let op = a.word();
+        ops.push(match op {
+            "t" => HOp::Tol(a.f64()),
+            "d" => HOp::Delta(a.f64()),
+            "i" => HOp::Iters(a.usize()),
+            "g" => HOp::Guess(guess(a)),
+            "s" => { a.word(); HOp::Solve }
+            _ => panic!("harness: unknown history op {}", op),
+        });
+    }
+    ops
+}
+fn apply_ops<X>(n: &mut Newton<X>, ops: Vec<HOp<X>>, mut solve: impl FnMut(&Newton<X>)) {
+    for op in ops {
+        match op {
+            HOp::Tol(t) => n.tolerance(t),
+            HOp::Delta(d) => n.delta(d),
+            HOp::Iters(i) => n.iterations(i),
+            HOp::Guess(g) => n.guess(g),
+            HOp::Solve => solve(n),
+        }
+    }
+}
 fn emit_params<T: NElt>(p: (f64, f64, usize, T), out: &mut Out) { out.f(p.0); out.f(p.1); out.usize(p.2); out.s(&p.3); }
 fn emit_res_s<T: Elt>(r: &Result<T, T>, out: &mut Out) {
     match r { Ok(x) => { out.usize(1); out.s(x); } Err(x) => { out.usize(0); out.s(x); } }
@@ -155,14 +189,18 @@ fn emit_res_v<T: Elt>(r: &Result<Vector<T>, Vector<T>>, out: &mut Out) {
 pub fn run<T: NElt>(kind: &str, a: &mut Args, out: &mut Out) {
     let mut o = Out::new();          // appended to `out` only if nothing panicked
     match kind {
-        "newton.scalar" => {
-            let (t, d, it) = (opt_f64(a), opt_f64(a), opt_usize(a));
+        "newton.scalar" | "newton.hscalar" => {
+            let hist = kind == "newton.hscalar";
+            let (t, d, it) = if hist { (None, None, None) } else { (opt_f64(a), opt_f64(a), opt_usize(a)) };
             let guess = a.s::<T>();
+            let ops = if hist { parse_ops(a, |a: &mut Args| a.s::<T>()) } else { Vec::new() };
             let f = fun1::<T>(a.word());
             let log: RefCell<Vec<T>> = RefCell::new(Vec::new());
             let func = |x: T| -> T { log.borrow_mut().push(x); call1(&f, x) };
             let mut n = Newton::<T>::new(guess);
             configure(&mut n, t, d, it);
+            apply_ops(&mut n, ops, |n: &Newton<T>| { let _ = T::solve_scalar(n, &func); });
+            log.borrow_mut().clear();
             emit_params(T::params(&n), &mut o);
             let r1 = T::solve_scalar(&n, &func);
             let pts: Vec<T> = log.borrow_mut().drain(..).collect();
@@ -172,11 +210,14 @@ pub fn run<T: NElt>(kind: &str, a: &mut Args, out: &mut Out) {
             let r2 = T::solve_scalar(&n, &func);
             emit_res_s(&r2, &mut o); o.usize(log.borrow().len());
         }
-        "newton.sys" | "newton.sysjac" => {
-            let (t, d, it) = (opt_f64(a), opt_f64(a), opt_usize(a));
+        "newton.sys" | "newton.sysjac" | "newton.hsys" | "newton.hsysjac" => {
+            let hist = kind == "newton.hsys" || kind == "newton.hsysjac";
+            let (t, d, it) = if hist { (None, None, None) } else { (opt_f64(a), opt_f64(a), opt_usize(a)) };
             let guess = a.v::<T>();
+            let guess_dim = guess.size();
+            let ops = if hist { parse_ops(a, |a: &mut Args| a.v::<T>()) } else { Vec::new() };
             let f = funv::<T>(a.word());
-            let with_jac = kind == "newton.sysjac";
+            let with_jac = kind == "newton.sysjac" || kind == "newton.hsysjac";
             let (jr, jc, jes) = if with_jac { let r = a.usize(); let c = a.usize(); (r, c, exprs::<T>(a.word())) } else { (0, 0, Vec::new()) };
             if with_jac && jes.len() != jr * jc { panic!("harness: jacobian literal size"); }
             let log: RefCell<Vec<Vec<String>>> = RefCell::new(Vec::new());
@@ -190,10 +231,15 @@ pub fn run<T: NElt>(kind: &str, a: &mut Args, out: &mut Out) {
                 let mut m = Matrix::<T>::new(jr, jc, T::zero());
                 for i in 0..jr { for j in 0..jc { m[(i, j)] = vals[i * jc + j]; } }
                 m };
-            let per_pass = if with_jac { 2 } else { guess.size() + 2 };
             let mut n = Newton::<Vector<T>>::new(guess);
             configure(&mut n, t, d, it);
             let solve = |n: &Newton<Vector<T>>| if with_jac { T::solve_sysjac(n, &func, &jac) } else { T::solve_sys(n, &func) };
+            // the dimension of the LAST guess set decides the calls per pass
+            let mut dim = None;
+            for op in ops.iter() { if let HOp::Guess(g) = op { dim = Some(g.size()); } }
+            apply_ops(&mut n, ops, |n: &Newton<Vector<T>>| { let _ = solve(n); });
+            log.borrow_mut().clear();
+            let per_pass = if with_jac { 2 } else { dim.unwrap_or(guess_dim) + 2 };
             let r1 = solve(&n);
             let pts: Vec<Vec<String>> = log.borrow_mut().drain(..).collect();
             emit_res_v(&r1, &mut o); o.usize(pts.len());
